@@ -33,7 +33,7 @@ BUDGET = {
     "quick": dict(shards=4, examples=250, numba_threads=16),
     "thorough": dict(shards=16, examples=2000, wall_cap_s=1800, numba_threads=16),
 }
-MATERIALISE = ["edge_node_connectivity", "face_edge_connectivity", "edge_face_connectivity", "node_face_connectivity", "face_face_connectivity", "face_lon", "edge_lon", "face_areas", "node_x", "edge_node_z", "n_nodes_per_face", "bounds"]
+MATERIALISE = ["edge_node_connectivity", "face_edge_connectivity", "edge_face_connectivity", "node_face_connectivity", "face_face_connectivity", "face_lon", "edge_lon", "face_areas", "node_x", "edge_node_z", "n_nodes_per_face", "bounds", "hole_edge_indices", "edge_node_distances", "edge_face_distances", "antimeridian_face_indices"]
 SELECTIONS = ["isel_face", "isel_node", "isel_edge", "bbox", "bbox", "bbox", "circle", "nn", "const_lat", "const_lat"]
 ELEMENTS = ["nodes", "face centers", "edge centers"]
 
@@ -459,6 +459,24 @@ def run_case(case, ctx):
             return fails
         if rows_as_sets(res.face_face_connectivity.values, res.n_face) != rows_as_sets(twin.face_face_connectivity.values, twin.n_face):
             bad("fully_functional", "face_face", "face_face_connectivity differs from a fresh grid's", f_site)
+            return fails
+        # boundary edges, as node pairs
+        hidx = [int(e) for e in np.atleast_1d(np.asarray(res.hole_edge_indices)).ravel()]
+        if any(e < 0 or e >= len(rp) for e in hidx):
+            bad("fully_functional", "hole_edge_indices", f"hole_edge_indices of the result {hidx[:8]} name edges the result does not have (n_edge {len(rp)})", f_site)
+            return fails
+        hr = sorted(rp[e] for e in hidx)
+        ht = sorted(tp[int(e)] for e in np.atleast_1d(np.asarray(twin.hole_edge_indices)).ravel())
+        if hr != ht:
+            bad("fully_functional", "hole_edge_indices", f"boundary edges of the result {hr[:6]}... ({len(hr)}) vs a fresh grid's {ht[:6]}... ({len(ht)})", f_site)
+            return fails
+        dr = {rp[e]: float(v) for e, v in enumerate(np.asarray(res.edge_node_distances.values, float))}
+        dt = {tp[e]: float(v) for e, v in enumerate(np.asarray(twin.edge_node_distances.values, float))}
+        if set(dr) != set(dt) or any(abs(dr[k] - dt[k]) > 1e-12 for k in dr):
+            bad("fully_functional", "edge_node_distances", "edge_node_distances differ from a fresh grid's", f_site)
+            return fails
+        if sorted(int(i) for i in np.atleast_1d(res.antimeridian_face_indices)) != sorted(int(i) for i in np.atleast_1d(twin.antimeridian_face_indices)):
+            bad("fully_functional", "antimeridian_face_indices", f"{np.atleast_1d(res.antimeridian_face_indices).tolist()} vs fresh {np.atleast_1d(twin.antimeridian_face_indices).tolist()}", f_site)
             return fails
         if not np.array_equal(np.asarray(res.n_nodes_per_face.values), np.asarray(twin.n_nodes_per_face.values)):
             bad("fully_functional", "n_nodes_per_face", f"{np.asarray(res.n_nodes_per_face.values)} vs {np.asarray(twin.n_nodes_per_face.values)}", f_site)
